@@ -397,3 +397,59 @@ for _fn, _root in (('cleanup_trace_history', '/trace.history'), ('cleanup_finish
                       ('C18', 'forall(lambda p: implies(cp_parent(p) != "%s", zk_same(p)), "Str")' % _root, 'only_history'),
                       ('C18', 'forall(lambda p: zk_same(p) or not zk_exists(p), "Str")', 'only_deletes')],
              modifies=['zk', 'alloc'], props=['C18'])
+
+
+# ------------------------------------------------------------------ server.zk.cleanup_server_trace (the server-trace twin)
+SV = 'treadmill.trace.server.zk'
+axiom('server-trace-shard-not-history',
+      'forall(lambda s: cp("/server-trace", s) != "/server-trace.history", "Str", pat=cp("/server-trace", s))',
+      note="'/server-trace/<shard>' is not the string '/server-trace.history'")
+contract('lib:heapq.merge', types={'$params': ['a', 'b'], 'a': 'List[%s]' % TR, 'b': 'List[%s]' % TR, 'return': 'List[%s]' % TR},
+         ensures=['len(result) == len(a) + len(b)'], assumed=True,
+         note='sorted merge of two lists (only its length is used: the batch needs no property of its elements)')
+
+
+@spec
+def srv_archived(p):
+    return exists(lambda q: zk_exists(q) and cp_parent(q) == '/server-trace.history' and snap_has(zk_content(q), p), 'Str')
+
+
+@spec
+def srv_lossless():
+    return forall(lambda p: implies(old(zk_exists(p)), zk_same(p) or srv_archived(p)), 'Str')
+
+
+@spec
+def srv_only_events():
+    """Whatever changed is a node two levels below /server-trace, or a new snapshot."""
+    return forall(lambda p: zk_same(p) or cp_parent(cp_parent(p)) == '/server-trace' or
+                  (not old(zk_exists(p)) and cp_parent(p) == '/server-trace.history'), 'Str')
+
+
+contract(SV + ':cleanup_server_trace',
+         types={'zkclient': 'KazooClient', 'batch_size': 'Int', 'batch': 'List[%s]' % TR, 'traces': 'List[%s]' % TR,
+                'num_events': 'Int', 'uploaded_events': 'Int', 'shards': 'List[Str]', 'events': 'List[Str]',
+                'db_rows': 'List[%s]' % ROW},
+         requires=['batch_size >= 1'],
+         raises={'KazooException': [('C18', 'srv_lossless()', 'lossless_on_failure'),
+                                    ('C18', 'srv_only_events()', 'only_events_on_failure')],
+                 'ValueError': [('C18', 'srv_lossless()', 'lossless_on_bad_name'),
+                                ('C18', 'srv_only_events()', 'only_events_on_bad_name')]},
+         ensures=[('C18', 'srv_lossless()', 'lossless'), ('C18', 'srv_only_events()', 'only_events')],
+         modifies=['zk', 'fs', 'alloc'], props=['C18'])
+invariant(SV + ':cleanup_server_trace', 0, 'while True',
+          ['batch_size >= 1', ('C18', 'srv_lossless()'), ('C18', 'srv_only_events()')])
+invariant(SV + ':cleanup_server_trace', 1, 'for shard in shards',
+          ['batch_size >= 1', ('C18', 'srv_lossless()'), ('C18', 'srv_only_events()')])
+invariant(SV + ':cleanup_server_trace', 2, 'for event in events',
+          ['batch_size >= 1', ('C18', 'srv_lossless()'), ('C18', 'srv_only_events()')])
+contract(SV + ':cleanup_server_trace_history', types={'zkclient': 'KazooClient', 'max_count': 'Int'},
+         requires=['max_count >= 0'],
+         raises={'NoNodeError': ['all_same()']},
+         ensures=[('C18', 'forall(lambda a, b: implies(old(zk_exists(cp("/server-trace.history", a))) and '
+                          '       old(zk_exists(cp("/server-trace.history", b))) and '
+                          '       not zk_exists(cp("/server-trace.history", a)) and zk_exists(cp("/server-trace.history", b)), '
+                          '       a <= b), "Str", "Str")', 'pruned_are_older'),
+                  ('C18', 'forall(lambda p: implies(cp_parent(p) != "/server-trace.history", zk_same(p)), "Str")', 'only_history'),
+                  ('C18', 'forall(lambda p: zk_same(p) or not zk_exists(p), "Str")', 'only_deletes')],
+         modifies=['zk', 'alloc'], props=['C18'])
